@@ -224,7 +224,13 @@ func (st *State) newObject() Term {
 func (st *State) wfLeaf(l Leaf, v Term, alloc Term) Term {
 	switch l.Kind {
 	case LkRef, LkPayload, LkSlArr:
-		return tAnd("(>= "+tRid(v)+" 0)", "(<= "+tRid(v)+" "+alloc+")", tImp(tIsNil(v), tEq(v, rnil)))
+		base := tAnd("(>= "+tRid(v)+" 0)", "(<= "+tRid(v)+" "+alloc+")", tImp(tIsNil(v), tEq(v, rnil)))
+		if pt, ok := l.T.Underlying().(*types.Pointer); ok && l.Kind == LkRef {
+			// Go's type safety: a *T points into an allocation whose root type contains a T
+			st.x.d.DeclareFun("roottype", []string{"Int"}, "Int")
+			base = tAnd(base, tOr(tIsNil(v), st.x.prog.rootOK(pt.Elem(), "(roottype "+tRid(v)+")")))
+		}
+		return base
 	case LkSlOff, LkSlLen:
 		return "(>= " + v + " 0)"
 	case LkTag:
